@@ -8,6 +8,8 @@ import (
 
 	"github.com/libp2p/go-libp2p/core/event"
 	"github.com/libp2p/go-libp2p/p2p/host/eventbus"
+
+	"berty.tech/go-orbit-db/verifhook"
 )
 
 type Event interface{}
@@ -123,6 +125,7 @@ func (e *EventEmitter) handleSubscriber(ctx context.Context, sub event.Subscript
 				e = box.evt
 			}
 
+			verifhook.Point("legacy.before-push", cevent, e)
 			condProcess.L.Lock()
 			if queue.Len() == 0 {
 				// try to push event to the queue
@@ -156,6 +159,7 @@ func (e *EventEmitter) handleSubscriber(ctx context.Context, sub event.Subscript
 
 			// Unlock cond mutex while sending the event
 			condProcess.L.Unlock()
+			verifhook.Point("legacy.after-dequeue", cevent, e)
 
 			select {
 			case <-ctx.Done():
